@@ -29,7 +29,9 @@
 (* out  = [err, names, paths, vars, final : [captured, vars], tree : path -> Seq(SEG), dataPaths, home,         *)
 (*         after : [exists : watched path -> BOOLEAN, same : BOOLEAN],                                         *)
 (*         more  : Seq([err, final, tree, dataPaths, home, homeExists]),  \* per further node                  *)
-(*         varsAfter : key -> VAL]              \* Car.variables after every node has been provisioned          *)
+(*         varsAfter : key -> VAL,              \* Car.variables after every node has been provisioned          *)
+(*         docker : [err, final, tree, compose, dataPaths, home]]  \* DockerProvisioner.prepare on the same car *)
+(* inp.docker = [vars (the container's node variables), home, es_version, node_ip, http_port, volumes]          *)
 (* SEG  = [t : cid, vals : Seq(Seq(STRING))]  one rendering of a template / one verbatim blob (vals = <<>>)     *)
 (***************************************************************************)
 EXTENDS Integers, Sequences, FiniteSets, TLC
@@ -110,19 +112,41 @@ DocCleanup(inp, dps, after) ==
     IF inp.preserve THEN after.same
     ELSE ~after.exists[inp.node.home] /\ \A i \in DOMAIN dps : ~after.exists[dps[i]]
 
-\* the per-node clauses: r = [final, tree, dataPaths, home] is what provisioning node nd from the composed car (documented
-\* variables vars, config bases paths) produced: THAT node's own names / ports / paths, whichever node was provisioned before
-NodeFails(inp, nd, r, paths, vars) ==
-    LET fin == DocFinalN(nd, vars)
-        prov == Provided(inp, paths)
+\* the per-node clauses: r = [final, tree, ...] is what provisioning a node from the composed car (documented variables vars,
+\* config bases paths) produced; nodeKeys / fin: Rally's own variables of THAT node and what its templates have to see -
+\* that node's own names / ports / paths, whichever node was provisioned before
+NodeFailsG(inp, nodeKeys, fin, r, paths, vars) ==
+    LET prov == Provided(inp, paths)
         wrong(K, m, exp) == \E k \in K : k \notin DOMAIN m \/ m[k] # exp[k]
     IN
-       (IF r.final.captured /\ wrong(DOMAIN nd.vars, r.final.vars, fin) THEN {"NodeVariablesNotOverridable"} ELSE {})
+       (IF r.final.captured /\ wrong(nodeKeys \ {"data_paths"}, r.final.vars, fin) THEN {"NodeVariablesNotOverridable"} ELSE {})
     \cup (IF r.final.captured /\ wrong({"data_paths"}, r.final.vars, fin) THEN {"DataPathsUserOrDefault"} ELSE {})
-    \cup (IF r.final.captured /\ wrong(DOMAIN vars \ (DOMAIN nd.vars \cup {"data_paths"}), r.final.vars, fin) THEN {"TemplatesSeeCarVariables"} ELSE {})
+    \cup (IF r.final.captured /\ wrong(DOMAIN vars \ (nodeKeys \cup {"data_paths"}), r.final.vars, fin) THEN {"TemplatesSeeCarVariables"} ELSE {})
     \cup (IF \E p \in prov : p \notin DOMAIN r.tree THEN {"SameRelativePath"} ELSE {})
     \cup (IF \E p \in prov \cap DOMAIN r.tree : KindOf(inp, paths, p) = "text" /\ r.tree[p] # DocContent(inp, paths, fin, p) THEN {"TextRenderedAndAppended"} ELSE {})
     \cup (IF \E p \in prov \cap DOMAIN r.tree : KindOf(inp, paths, p) = "binary" /\ r.tree[p] # DocContent(inp, paths, fin, p) THEN {"BinaryVerbatimLastWins"} ELSE {})
+NodeFails(inp, nd, r, paths, vars) == NodeFailsG(inp, DOMAIN nd.vars, DocFinalN(nd, vars), r, paths, vars)
+
+\* the Docker provisioner (provisioner.docker(...).prepare on the same composed car): templates are rendered into <node root>/install
+\* (no archive), with the container's node variables (dk.vars; data_paths is NOT user-definable here) which cannot be overridden
+\* either; docker-compose.yml names Rally's version / port / ip / directories, the car's image and limits, and mounts every
+\* rendered config file at the same relative path of the container's installation
+Show1(m, k) == IF k \in DOMAIN m THEN m[k].v[1] ELSE "-"
+DocCompose(inp, dk, paths, vars) ==
+    [image |-> Show1(vars, "docker_image"), version |-> dk.es_version,
+     ports |-> <<<<dk.http_port, dk.http_port>>, <<"9300">>>>, volumes |-> dk.volumes,
+     health_port |-> dk.http_port, node_ip |-> dk.node_ip,
+     cpu |-> Show1(vars, "docker_cpu_count"), mem |-> Show1(vars, "docker_mem_limit")]
+DockerFails(inp, dk, r, paths, vars) ==
+    IF r.err # "none" THEN {"NoSpuriousError", "DockerProvisioner"}
+    ELSE LET exp == DocCompose(inp, dk, paths, vars)
+             c == r.compose
+             f == NodeFailsG([inp EXCEPT !.shipped = <<>>], DOMAIN dk.vars, Over(vars, dk.vars), r, paths, vars)
+                  \cup (IF /\ c.version = exp.version /\ c.ports = exp.ports /\ c.volumes = exp.volumes
+                           /\ c.health_port = exp.health_port /\ c.node_ip = exp.node_ip THEN {} ELSE {"ComposeUsesNodeValues"})
+                  \cup (IF c.image = exp.image /\ c.cpu = exp.cpu /\ c.mem = exp.mem THEN {} ELSE {"ComposeUsesCarVariables"})
+                  \cup (IF c.mounts = {[p |-> q, d |-> q] : q \in Provided(inp, paths)} THEN {} ELSE {"ComposeMountsEveryConfigFile"})
+         IN  IF f = {} THEN {} ELSE f \cup {"DockerProvisioner"}
 
 \* a further node provisioned from the same Car object: the same clauses with ITS node record; its NodeConfiguration (what cleanup
 \* is called with) names its own installation and data paths; its installation is wiped unless preserve is set
@@ -152,6 +176,7 @@ FailsUnder(inp, o, bs) ==
     \cup (IF DocCleanup(inp, DocDataPaths(inp, vars), o.after) THEN {} ELSE {"CleanupAllOrNothing"})
     \cup (IF Len(o.more) = Len(inp.more) THEN {} ELSE {"NoSpuriousError", "LaterNodeOfSameCar"})
     \cup UNION {LaterNodeFails(inp, inp.more[i], o.more[i], paths, vars) : i \in DOMAIN inp.more \cap DOMAIN o.more}
+    \cup DockerFails(inp, inp.docker, o.docker, paths, vars)
     \* the composed car is what the cars, bases and car params say - provisioning nodes from it does not change it
     \cup (IF MapEq(o.vars, o.varsAfter) THEN {} ELSE {"CarUnchangedByProvisioning"})
 
@@ -242,9 +267,27 @@ CodeAfter(inp, dps) ==
                    ELSE p = inp.node.home \/ w(p).inHome \/ (p \in ToSet(dps) /\ ~skipped(p))
     IN  [exists |-> [p \in {x.p : x \in ToSet(inp.node.watch)} |-> ~gone(p)], same |-> inp.preserve /\ Variant # "ignore_preserve"]
 
+\* DockerProvisioner.__init__ / prepare / docker_vars
+DockerNone == [err |-> "skipped", final |-> [captured |-> FALSE, vars |-> NoVars], tree |-> NoVars,
+               compose |-> [image |-> "", version |-> "", ports |-> <<>>, volumes |-> <<>>, mounts |-> {}, health_port |-> "",
+                            node_ip |-> "", cpu |-> "-", mem |-> "-"],
+               dataPaths |-> <<>>, home |-> ""]
+CodeDocker(inp, paths, cv) ==
+    LET dk == inp.docker
+        fin == IF Variant = "docker_car_over_defaults" THEN Over(dk.vars, cv) ELSE Over(cv, dk.vars)
+        prov == Provided(inp, paths)
+    IN  [err |-> "none", final |-> [captured |-> TRUE, vars |-> fin],
+         tree |-> ApplyBases(inp, NoVars, paths, fin),
+         compose |-> [image |-> Show1(cv, "docker_image"), version |-> dk.es_version,
+                      ports |-> <<<<dk.http_port, dk.http_port>>, <<"9300">>>>, volumes |-> dk.volumes,
+                      mounts |-> {[p |-> q, d |-> q] : q \in prov},      \* (a set; the recorded list is turned into one)
+                      health_port |-> dk.http_port, node_ip |-> dk.node_ip,
+                      cpu |-> Show1(cv, "docker_cpu_count"), mem |-> Show1(cv, "docker_mem_limit")],
+         dataPaths |-> <<dk.volumes[1][1]>>, home |-> dk.home]
+
 ErrOut(e) == [err |-> e, names |-> <<>>, paths |-> <<>>, vars |-> NoVars, final |-> [captured |-> FALSE, vars |-> NoVars],
               tree |-> NoVars, dataPaths |-> <<>>, home |-> "", after |-> [exists |-> NoVars, same |-> FALSE],
-              more |-> <<>>, varsAfter |-> NoVars]
+              more |-> <<>>, varsAfter |-> NoVars, docker |-> DockerNone]
 
 Code(inp) ==
     LET lc == LoadCar(inp) IN
@@ -265,6 +308,7 @@ Code(inp) ==
               dataPaths |-> dps, home |-> inp.node.home,
               after |-> CodeAfter(inp, dps),
               more |-> [i \in DOMAIN inp.more |-> later(i)],
+              docker |-> CodeDocker(inp, lc.paths, CarVarsAt(inp, lc.vars, Len(inp.more) + 2)),
               varsAfter |-> CarVarsAt(inp, lc.vars, Len(inp.more) + 2)]
 
 \* L2: a recorded result is the transcription's result
@@ -283,6 +327,14 @@ Conforms(inp, o) ==
           /\ o.more[i].dataPaths = c.more[i].dataPaths /\ o.more[i].home = c.more[i].home
           /\ o.more[i].homeExists = c.more[i].homeExists
     /\ MapEq(o.varsAfter, c.varsAfter)
+    /\ o.docker.err = c.docker.err
+    /\ (o.docker.final.captured => MapEq(o.docker.final.vars, c.docker.final.vars))
+    /\ MapEq(o.docker.tree, c.docker.tree)
+    /\ o.docker.dataPaths = c.docker.dataPaths /\ o.docker.home = c.docker.home
+    /\ LET a == o.docker.compose  b == c.docker.compose
+       IN  /\ a.image = b.image /\ a.version = b.version /\ a.ports = b.ports /\ a.volumes = b.volumes
+           /\ a.mounts = b.mounts
+           /\ a.health_port = b.health_port /\ a.node_ip = b.node_ip /\ a.cpu = b.cpu /\ a.mem = b.mem
 
 -----------------------------------------------------------------------------
 VARIABLES inp, out, done
